@@ -216,7 +216,7 @@ CLAIM = {
     "text": "Decides type-lattice coverage of the numeric branches against the installed numpy's class hierarchy (numpy integers are not ints: the "
             "omission fixed in /repo as F-11 would be reported again; so would F-14, the float32 value 2**53 passing because the bound is rounded to "
             "float32 by the comparison), equality of the comparison and clamp bounds with +-(2**53-1) by constant "
-            "folding, finiteness and agreement of the float bounds, and the recursion / branch-order shape. The arithmetic of `%` and NaN are not decided.",
+            "folding, finiteness and agreement of the float bounds, the recursion / branch-order shape, and the absence of shortcut branches that hand back a container without the per-value bound. The arithmetic of `%` and NaN are not decided.",
     "technique": "isinstance-tuple coverage against the numeric type lattice (inspect of numpy classes); constant folding; shape rules",
 }
 
